@@ -1894,7 +1894,7 @@ func Run(args []string) {
 	thorough := vh.Tier() == "thorough"
 	nRandom := vh.Pick(28000, 800000)
 	nDup := vh.Pick(3000, 60000)
-	nMember := vh.Pick(6000, 150000)
+	nMember := vh.Pick(8000, 150000)
 	gen := func(i int) rcase {
 		r := vh.NewRand((8_000_000_011 + int64(i)) * 2000029)
 		if i >= nRandom+nDup {
